@@ -146,10 +146,12 @@ class Computable(BaseObservable):
         computed = getattr(instance, self.private_name)
         old_value = computed._value
 
-        if CURRENT_COMPUTED is not None:
-            CURRENT_COMPUTED._add_parent(instance, self.public_name, old_value)
-
         new_value = computed()
+
+        if CURRENT_COMPUTED is not None:
+            # remember the value that is handed to the evaluating Computed, not the
+            # cached one from before this read
+            CURRENT_COMPUTED._add_parent(instance, self.public_name, new_value)
 
         if new_value != old_value:
             instance.notify(
